@@ -12,9 +12,9 @@ import (
 
 func init() {
 	register(&Property{
-		ID:  "C07",
-		Run: runC07,
-		Explain: "Static structural necessary conditions of pdata value semantics over pcommon/plog/pmetric/ptrace/pprofile and the *otlp packages (generated and hand-written code alike): (R1) assert-before-write – every exported function/method that writes through the orig of a wrapper parameter/receiver (stores, copy/clear, protobuf mutators, sort, or helpers that do – bottom-up summaries) calls AssertMutable on that same wrapper's state on every path before the first write; (R2) no resurrection – a re-slice that grows a payload slice into its capacity resets the elements between the old and the new length (fresh allocations for pointer elements, zero values otherwise) before they are used; (R3) CopyTo completeness – every message wrapper's CopyTo writes every field of its protobuf struct on every path (so unset optional / one-of values clear the destination); (R4) one state per payload – a wrapper constructed from another wrapper's data carries that wrapper's state; (R5) MoveTo stores the source into the destination and then the zero value into the source, MoveAndAppendTo ends with the source set to nil; (R6) the scalar one-of wrappers of AnyValue that Value.CopyTo shares are never modified in place.",
+		ID:         "C07",
+		Run:        runC07,
+		Explain:    "Static structural necessary conditions of pdata value semantics over pcommon/plog/pmetric/ptrace/pprofile and the *otlp packages (generated and hand-written code alike): (R1) assert-before-write – every exported function/method that writes through the orig of a wrapper parameter/receiver (stores, copy/clear, protobuf mutators, sort, or helpers that do – bottom-up summaries) calls AssertMutable on that same wrapper's state on every path before the first write; (R2) no resurrection – a re-slice that grows a payload slice into its capacity resets the elements between the old and the new length (fresh allocations for pointer elements, zero values otherwise) before they are used; (R3) CopyTo completeness – every message wrapper's CopyTo writes every field of its protobuf struct on every path (so unset optional / one-of values clear the destination); (R4) one state per payload – a wrapper constructed from another wrapper's data carries that wrapper's state; (R5) MoveTo stores the source into the destination and then the zero value into the source, MoveAndAppendTo ends with the source set to nil; (R6) the scalar one-of wrappers of AnyValue that Value.CopyTo shares are never modified in place.",
 		NotDecided: "Equality/independence after arbitrary operation programs, order preservation of RemoveIf/Sort, 'panics without changing anything' beyond assert-dominates-first-write, the generator templates themselves (only their generated output is analysed).",
 		Assumes:    []string{"AssertMutable panics when the shared state is read-only", "every view of a payload is obtained through the analysed API (no unsafe access to orig)"},
 		Technique:  "static analysis: effect analysis with bottom-up summaries (payload writes vs. state assertions, dominance), field-coverage on all paths, value provenance, re-slice idiom check",
